@@ -67,6 +67,27 @@ let block_hay ?(kind = 'H') ?lh ?(ls = "-") h verbose =
   done;
   call b (enc_str (to_string h));
   call b (enc_str (to_string h));
+  (* entry points beyond the queries (docs/audit/C18.md); iterators and constructors have no model function of their own:
+     a view IS its byte list, so they are the identity *)
+  call b (enc_str (to_string h));                                           (* explicit operator std::string *)
+  call b (len :: List.map int_of_n h);                                      (* begin..end *)
+  call b (len :: List.map int_of_n h);                                      (* cbegin..cend *)
+  call b (len :: List.rev_map int_of_n h);                                  (* rbegin..rend *)
+  call b (len :: List.rev_map int_of_n h);                                  (* crbegin..crend *)
+  call b (enc_str h);                                                       (* StringView(const std::string&) *)
+  call b (enc_str h);                                                       (* StringView(std::string&&) *)
+  call b (enc_str (of_cstr h));                                             (* StringView(const char* ) *)
+  call b (enc_view h 0);                                                    (* (const_iterator, const_iterator) *)
+  call b (enc_view h 0);                                                    (* (string::const_iterator, size) *)
+  call b (enc_view h 0);                                                    (* (string::const_iterator, string::const_iterator) *)
+  call b (enc_view h 0);                                                    (* from / to std::string_view *)
+  call b [0; 1; 1];                                                         (* StringView((const char* )nullptr) *)
+  call b (enc_view h 0 @ [len; 0]);                                         (* copy construction, assignment *)
+  call b (enc_view [] 0);                                                   (* clear() *)
+  List.iter (fun k ->
+    call b (enc_view (remove_prefix h (arg k)) len);                        (* n > size(): clamped *)
+    call b (enc_view (remove_suffix h (arg k)) 0)) [len + 1; len + 2; -2; -1];
+  call b (enc_str (h @ [n_of_int 0x7C; n_of_int 0x37]));                    (* os << v << '|' << 7 *)
   List.iter (fun pos -> List.iter (fun k ->
     call b (match substr h (arg pos) (arg k) with Ok v -> enc_view v pos | _ -> [-2])) nn) p;
   let buf = List.init (len + 3) (fun _ -> n_of_int 0x2E) in
@@ -122,6 +143,8 @@ let block_pair ?lh ?ls h s verbose =
   call b [enc_sign (compare0 h cs)];
   call b [enc_bool (starts_with h s)];
   call b [enc_bool (ends_with h s)];
+  call b (enc_str s @ (if 1 + List.length s + len + 1 <= 64 then enc_str h else []));     (* swap *)
+  call b [1; 1];                                                                            (* std::hash consistent with == *)
   let six x a =
     call b [(if x <> [] then found b else enc_size) (find h x a)];
     call b [(if x <> [] then found b else enc_size) (rfind h x a)];
@@ -133,7 +156,7 @@ let block_pair ?lh ?ls h s verbose =
   List.iter (fun pos -> six pn (arg pos); six cs (arg pos)) f;
   let n1s = if List.length s <= 1 then counts len else p in
   List.iter (fun pos1 -> List.iter (fun n1 ->
-    if pos1 <> -1 && pos1 <= len || n1 = 0 || n1 = -1 then
+    if pos1 <> -1 && pos1 <= len || n1 = 0 || n1 = -1 || (List.length s <= 1 && len <= 3) then
       call b (match compare3 h (arg pos1) (arg n1) s with Ok z -> [enc_sign z] | _ -> [-2])) n1s) p;
   for k = 0 to List.length s - 1 do
     let pk = of_ptr_n s (arg k) in
